@@ -269,6 +269,13 @@ def c10(tier, seed, wd, replay=None):
         if err or not ok:
             run.violation(f"depth:{kind}|{err or 'CopyDiffers'}", f"{kind} of {n} vertices under recursion limit {lim}: {err or 'copy differs'}",
                           {"kind": "pickle-depth", "n": n, "limit": lim, "shape": kind})
+    # an ordinary dumps() right after one that raised half-way (state carried from the failed call must not leak)
+    for proto in (2, 4, 5):
+        failed, err, ok = PX.after_failure_case(proto)
+        run.count_class(f"after-failed-dumps:proto{proto},first_failed{int(failed)}")
+        if err or not ok:
+            run.violation(f"after-failed-dumps|{err or 'CopyDiffers'}", f"dumps() of a 4-cycle right after a dumps() that raised (protocol {proto}): {err or 'copy differs'}",
+                          {"kind": "pickle-after-failure", "protocol": proto})
     run.traces += len(tree_recs) + len(iso_recs) + len(cont_recs) + len(fresh_jobs)
     run.evaluations += len(tree_recs) + len(iso_recs) + len(cont_recs) + len(fresh_jobs) + len(sizes)
     good_trees = [t for t in tree_recs if t["tree"]]
@@ -298,6 +305,9 @@ def replay_file(path, wd):
         bad = bool(PX.main_super_case(wd))
     elif kind == "pickle-recursive-closure":
         bad = bool(PX.recursive_closure_case())
+    elif kind == "pickle-after-failure":
+        _, err, ok = PX.after_failure_case(rp["protocol"])
+        bad = bool(err or not ok)
     elif kind == "pickle-depth":
         err, ok = PX.deep_chain(rp["n"], rp["limit"], rp["shape"])
         bad = bool(err or not ok)
